@@ -39,7 +39,7 @@ func init() {
 	})
 	register(&Rule{
 		ID: "R05.3", Props: []string{"C05", "C08"}, Engine: "guard",
-		Text: "blocks are rotated away only beyond the configured count or when condemned: every popFront in findBlockWithSpace is on the true edge of len(oldBlocks) > desiredOldBlocksCount or inside the loop bounded by totalBlocksReleased < totalBlocksToBeReleased; popFront is called from nowhere else",
+		Text: "blocks are rotated away only beyond the configured count or when condemned: every call of popFront is, within its function, on the true edge of len(oldBlocks) > desiredOldBlocksCount or inside the loop bounded by totalBlocksReleased < totalBlocksToBeReleased",
 		Floor: 2, MustExist: true, Run: runR053,
 	})
 	register(&Rule{
@@ -619,10 +619,6 @@ func runR053(c *Ctx) {
 				}
 				n++
 				name := FuncName(g)
-				if g.Name() != "findBlockWithSpace" {
-					c.Fail(name, "popFront", c.Pos(ins.Pos()), "blocks are rotated away outside findBlockWithSpace")
-					return
-				}
 				excess := dominatedByCmp(ins.Block(), func(op token.Token, x, y ssa.Value) bool {
 					fy, _ := loadedField(y)
 					return op == token.GTR && isLenOfField(x, "oldBlocks") && fy != nil && fy.Name() == "desiredOldBlocksCount"
